@@ -1,9 +1,12 @@
 package props
 
 import (
+	"fmt"
 	"net/url"
 	"regexp"
+	"runtime"
 	"strings"
+	"sync"
 	"testing"
 
 	"github.com/AdguardTeam/urlfilter/rules"
@@ -17,6 +20,8 @@ type c17Case struct {
 	URL      string `json:"url"`
 	Src      string `json:"src,omitempty"`
 	Hostname string `json:"hostname,omitempty"` // for NewRequestForHostname
+	// Together: host names whose requests are constructed by several goroutines at the same time
+	Together []string `json:"together,omitempty"`
 }
 
 // the contract: scheme://host[:port] then nothing, /path or ?query, then an
@@ -60,8 +65,61 @@ func asciiLower(s string) string {
 	return string(b)
 }
 
+// c17ConstructTogether: the fields of a request do not depend on what other
+// goroutines construct at the same moment (request construction is a pure function).
+func c17ConstructTogether(hosts []string, rec *Rec) *Violation {
+	const id = "C17"
+	var ok []string
+	for _, h := range hosts {
+		if h != "" && !strings.Contains(h, "..") && !strings.HasPrefix(h, ".") && !strings.HasSuffix(h, ".") && h == asciiLower(h) {
+			ok = append(ok, h)
+		}
+	}
+	if len(ok) < 2 {
+		return nil
+	}
+	want := map[string]string{}
+	for _, h := range ok {
+		want[h] = c17RefDomain(h)
+	}
+	const G = 4
+	errs := make([]string, G)
+	var wg sync.WaitGroup
+	for g := 0; g < G; g++ {
+		wg.Add(1)
+		go func(g int) {
+			defer wg.Done()
+			for round := 0; round < 400 && errs[g] == ""; round++ {
+				h := ok[(round+g)%len(ok)]
+				src := ok[(round*3+g+1)%len(ok)]
+				if r := rules.NewRequestForHostname(h); r.Domain != want[h] {
+					errs[g] = fmt.Sprintf("NewRequestForHostname(%q): Domain=%q, PSL eTLD+1 (or host)=%q", h, r.Domain, want[h])
+				}
+				r := rules.NewRequest("http://"+h+"/x", "http://"+src+"/", rules.TypeScript)
+				if r.Domain != want[h] || r.SourceDomain != want[src] || r.ThirdParty != (want[h] != want[src]) {
+					errs[g] = fmt.Sprintf("NewRequest(http://%s/x, http://%s/): Domain=%q SourceDomain=%q ThirdParty=%v, reference %q %q %v", h, src, r.Domain, r.SourceDomain, r.ThirdParty, want[h], want[src], want[h] != want[src])
+				}
+				if round%16 == 0 {
+					runtime.Gosched()
+				}
+			}
+		}(g)
+	}
+	wg.Wait()
+	for g, e := range errs {
+		if e != "" {
+			return viol(id, "C17:fields-differ:constructed-concurrently", "%d goroutines constructing requests for %q at once, goroutine %d: %s", G, ok, g, e)
+		}
+	}
+	rec.NonTrivial("together|"+strings.Join(ok, ","), map[string]any{"constructed_together": ok})
+	return nil
+}
+
 func checkC17(c c17Case, rec *Rec) *Violation {
 	const id = "C17"
+	if len(c.Together) > 0 {
+		return c17ConstructTogether(c.Together, rec)
+	}
 	if c.Hostname != "" {
 		h := c.Hostname
 		if strings.Contains(h, "..") || strings.HasPrefix(h, ".") || strings.HasSuffix(h, ".") || h != asciiLower(h) {
@@ -210,9 +268,9 @@ func genC17URL(t *rapid.T, long bool) string {
 	}
 	switch rapid.IntRange(0, 3).Draw(t, "rest") {
 	case 1, 2:
-		sb.WriteString("/" + pick(t, "path", []string{"", "a/b.js", "a//b", "x:y", "p?q=1&r=http://other.example/", "a%20b", "~u/;p=1", "index.html", "a/@b", "A/B", "adZone.js", "Zz", "\u212aelvin", "caf\u00c9"}))
+		sb.WriteString("/" + pick(t, "path", []string{"", "a/b.js", "a//b", "x:y", "p?q=1&r=http://other.example/", "a%20b", "~u/;p=1", "index.html", "a/@b", "A/B", "adZone.js", "Zz", "\u212aelvin", "caf\u00c9", "list?ids[]=1", "a[1]/b", "x]y", "[::1]/z"}))
 	case 3:
-		sb.WriteString("?" + pick(t, "query", []string{"", "q=1", "u=http://other.example//x", "a:b", "x/y?z", "email=john@tracker.com", "@", "x=@y/z", "u=me:pw@host.example"}))
+		sb.WriteString("?" + pick(t, "query", []string{"", "q=1", "u=http://other.example//x", "a:b", "x/y?z", "email=john@tracker.com", "@", "x=@y/z", "u=me:pw@host.example", "ids[]=1&ids[]=2", "a]=b", "h=[::1]:80"}))
 	}
 	if sb.Len() > 0 && strings.ContainsAny(sb.String()[strings.Index(sb.String(), "://")+3:], "/?") {
 		if long {
@@ -223,7 +281,7 @@ func genC17URL(t *rapid.T, long bool) string {
 			}
 		}
 		if chance(t, "fragment", 4) {
-			sb.WriteString("#" + pick(t, "frag", []string{"", "top", "a/b?c", "http://z.example/"}))
+			sb.WriteString("#" + pick(t, "frag", []string{"", "top", "a/b?c", "http://z.example/", "x]", "[a]"}))
 		}
 	}
 	return sb.String()
@@ -264,7 +322,14 @@ func genC17(t *rapid.T) c17Case {
 func init() { register("C17", checkC17) }
 
 func TestC17(t *testing.T) {
-	runProp(t, "C17", checkC17, nil, part[c17Case]{"urls", scale(40000, 150000), genC17})
+	runProp(t, "C17", checkC17, nil, part[c17Case]{"urls", scale(40000, 150000), genC17},
+		part[c17Case]{"constructed-together", scale(150, 1000), func(t *rapid.T) c17Case {
+			var hs []string
+			for i := rapid.IntRange(2, 6).Draw(t, "nhosts"); i > 0; i-- {
+				hs = append(hs, asciiLower(genC17Host(t)))
+			}
+			return c17Case{Together: hs}
+		}})
 }
 
 // FuzzC17 mutates well-formed URLs; inputs outside the contract are discarded
